@@ -20,7 +20,8 @@ def cases(ctx):
         for sub in itertools.combinations(allu, r):
             patterns.append(list(sub))
     if quick:
-        patterns = rnd.sample(patterns, 18) + [[('EUR', 'kg'), ('USD', 'kg')], [('EUR', 'g'), ('USD', 'kg')], [('EUR', 'kg')],
+        patterns = rnd.sample(patterns, 18) + [[('EUR', 'kg'), ('USD', 'kg')], [('EUR', 'g'), ('USD', 'kg')], [('EUR', 'kg')], [('EUR', 'g'), ('USD', 'g')],
+                                               [('EUR', 'g'), ('USD', 'g'), ('USD', 'kg'), ('EUR', 'kg')],
                                                [('EUR', 'kg'), ('USD', 'kg'), ('EUR', 't'), ('USD', 't')]]
     cs = []
     k = 0
